@@ -139,6 +139,21 @@ class Ghost:
             return
         if op in ("mkdir", "put_na", "rename", "delete", "rmdir", "put"):
             self.mutators.add(actor.name)
+        if op == "rename" and path.endswith("/lock/held") and "/releasing." in extra:
+            # unlock moves the lock aside; it may only ever move its OWN lock
+            ld = self.lds.get(actor.name)
+            mine = getattr(ld, "nonce", None)
+            ondisk = locksim.read_info(self.t, "lock/held/info")
+            if ondisk is not None and mine is not None and ondisk[0] != mine:
+                victim = [n for n, l in self.lds.items() if getattr(l, "nonce", None) == ondisk[0]]
+                raced = self.last_seen.get(actor.name) == mine
+                site = "unlock:rename-after-break-and-reacquire" if raced else "unlock:rename-without-ownership-check"
+                sim.probe("unlock_removed_other")
+                sim.fail(
+                    "unlock_only_own",
+                    ["unlock_only_own", "preempt", site],
+                    f"{actor.name} (nonce {mine!r}) releases, but its rename removes the lock of {victim} (nonce {ondisk[0]!r})",
+                )
         if op == "rename" and path.endswith("/lock/held") and "/broken." in extra:
             examined = self.breaking.get(actor.name)
             ondisk = locksim.read_info(self.t, "lock/held/info")
